@@ -1612,6 +1612,16 @@ class Compiler:
             ), mode="eval"
         ))
 
+        # Names supplied by a dictionary that comes later in the
+        # statement are left to that dictionary
+        later = ast.Call(
+            func=load("__chain"),
+            args=list(map(
+                self._engine.cache.get, getattr(node, "filters", ())
+            )),
+            keywords=[],
+        )
+
         bool_cond = (
             "if name in BOOL_NAMES:\n" +
             indent("if not bool(value): continue\n") +
@@ -1622,7 +1632,8 @@ class Compiler:
             "for name, value in TARGET.items():\n" +
             indent(bool_cond) +
             indent(
-                "if name not in EXCLUDE and value is not None:\n" +
+                "if name not in EXCLUDE and value is not None "
+                "and name not in LATER:\n" +
                 indent(bool_cond) +
                 indent(
                     "__append("
@@ -1633,6 +1644,7 @@ class Compiler:
             ),
             TARGET=target,
             EXCLUDE=exclude,
+            LATER=later,
             QUOTE_FUNC="__quote",
             QUOTE=ast.Constant(node.quote),
             QUOTE_ENTITY=ast.Constant(char2entity(node.quote or '\0')),
